@@ -188,6 +188,16 @@ DoUpdate(i, o, v) ==
   /\ Emit([op |-> "Update" \o UpdKind(i, o), id |-> i, obj |-> o, v |-> v, st |-> PStatus(v),
            r |-> IF IsLive(store, i) THEN "ok" ELSE "any"])
 
+(* UpdatePlan of a live plan whose storage operation number w is refused (cosmosdb patches the plan item and then     *)
+(* replaces the search record: two operations).  The vault may report an error; whether the new version or the old     *)
+(* one is stored is not fixed - but the store must not end up holding BOTH: what Read says about the plan and what      *)
+(* List / Search say about it must be the same version.  The model cannot know which one; the step ends the history.    *)
+DoUpdateIOFail(i, v, w) ==
+  /\ IsLive(store, i)
+  /\ clock' = clock /\ store' = store
+  /\ Emit([op |-> "UpdatePlanIOFail", id |-> i, obj |-> "plan", v |-> v, st |-> PStatus(v), old |-> PStatus(store[i].ver["plan"]),
+           w |-> w, r |-> "any"])
+
 DoRead(i) == /\ UNCHANGED <<store, clock>>
              /\ Emit([op |-> "Read", id |-> i, r |-> IF IsLive(store, i) THEN "ok" ELSE "err"])
 DoDelete(i) == /\ clock' = clock
@@ -217,12 +227,13 @@ P(S) == IF Sim /\ S # {} THEN {RandomElement(S)} ELSE S
 
 Next ==
   /\ Len(hist) < MaxLen
-  /\ LastOp # "Queries"                       \* the bulk step ends a history
+  /\ LastOp \notin {"Queries", "UpdatePlanIOFail"}      \* the bulk step and a refused update end a history
   /\ \/ "Create" \in Ops /\ \E i \in P(CIds), sn \in P(ShapeNames), g \in P(Groups), v0 \in P(InitVers) : DoCreate(i, sn, g, v0)
      \/ "CreateFail" \in Ops /\ \E i \in P(CIds), sn \in P(ShapeNames), g \in P(Groups) : \E bad \in P(ActionsOf(sn)) : DoCreateFail(i, sn, g, bad)
      \/ "CreateIOFail" \in Ops /\ \E i \in P(CIds), sn \in P(ShapeNames), g \in P(Groups), w \in P({1, 2}) : DoCreateIOFail(i, sn, g, w)
      \/ "Update" \in Ops /\ \E i \in P(Ids) : \E o \in P(UpdObjs(i)) : \E v \in P(NextVers(i, o)) : DoUpdate(i, o, v)
      \/ "UpdatePlan" \in Ops /\ \E i \in P(Ids) : \E v \in P(NextVers(i, "plan")) : DoUpdate(i, "plan", v)
+     \/ "UpdatePlanIOFail" \in Ops /\ \E i \in P(Ids) : \E v \in P(NextVers(i, "plan")), w \in P({1, 2}) : DoUpdateIOFail(i, v, w)
      \/ "Read" \in Ops /\ \E i \in P(Ids) : DoRead(i)
      \/ "Delete" \in Ops /\ \E i \in P(Ids) : DoDelete(i)
      \/ "Exists" \in Ops /\ \E i \in P(Ids) : DoExists(i)
@@ -257,7 +268,7 @@ ListSound == LET all == ListRes(store, 0) IN
 Lst == hist'[Len(hist')]
 Stepped == hist' # hist
 \* a failed Create, a duplicate Create and every query leave the store alone
-FailNoTrace == [][(Stepped /\ Lst.op \in {"CreateDup", "CreateFail", "CreateIOFail", "Read", "Exists", "Search", "SearchNone", "List", "Queries"})
+FailNoTrace == [][(Stepped /\ Lst.op \in {"CreateDup", "CreateFail", "CreateIOFail", "Read", "Exists", "Search", "SearchNone", "List", "Queries", "UpdatePlanIOFail"})
                    => store' = store]_vars
 \* Delete removes exactly one plan
 DeleteExact == [][(Stepped /\ Lst.op = "Delete")
